@@ -217,3 +217,16 @@ package scanner
 //@ requires f != nil && f.opts != nil && f.client != nil && ctx != nil
 //@ requires [options-a-caller-may-pass: a positive batch size and non-negative indices] f.opts.BatchSize >= 1 && f.opts.StartIndex >= 0 && f.opts.EndIndex >= 0
 //@ ensures [the-channel-the-generator-sends-on] result != nil
+
+// C16 "the scanner invokes the ... callback exactly once for every entry its matcher selects": a
+// scanner always has a matcher. The one the caller configured is the one it uses; when none was
+// configured it matches everything (the constructor's documented default), so that processEntry's
+// "unexpected matcher" refusal is reserved for values that are no matcher at all.
+//@ func NewScanner
+//@ props C16
+//@ requires client != nil
+//@ fresh result
+//@ ensures [scans-with-the-configured-matcher] opts.Matcher != nil ==> result.opts.Matcher == opts.Matcher
+//@ ensures [no-matcher-configured-means-match-everything] opts.Matcher == nil ==> typeof(result.opts.Matcher) == *MatchAll
+//@ ensures [options-are-the-callers] result != nil && result.opts.PrecertOnly == opts.PrecertOnly && result.opts.NumWorkers == opts.NumWorkers && result.opts.BufferSize == opts.BufferSize && result.opts.FetcherOptions == opts.FetcherOptions
+//@ ensures [fetches-with-its-own-copy-of-the-options] result.fetcher != nil && result.fetcher.opts == &result.opts.FetcherOptions && result.fetcher.client == client
